@@ -85,7 +85,9 @@ def permute(fmt, spec, seed):
     elif fmt == "discinfo":
         pass                                    # no unordered part: disc numbers are caller-ordered content
     elif FMF is not None:
-        s = FMF.permute(fmt, s, rng)
+        # every other rearranged rpms history also DROPS the writes that a later write of the same slot replaces: the same content
+        # (last write wins) built with fewer calls must be written as the same bytes
+        s = FMF.permute(fmt, s, rng, reduce=(fmt == "rpms" and seed % 2 == 0))
     return s
 
 
@@ -529,10 +531,6 @@ class C08(Prop):
                "every level (TI.c8Siblings); without the UID part the statement is false - two top-level variants of one UID and "
                "main_variant = that UID give order-dependent bytes (C08_treeinfo_shared_uid_witness, finding F44); for main_variant None or a "
                "top-level key the UID part is not needed (C08_perm_treeinfo_top_key)",
-               "C08_perm_manifests": "stated on the stored mapping (JEq payloads). For add HISTORIES: proved that two accepted calls at "
-               "different [variant][arch][key] addresses commute up to dict order (C08_manifests_updates_commute, C08_rpms_adds_commute, "
-               "C08_modules_adds_commute); missing for whole histories: the congruence JEq s s' -> JEq (add s a).1 (add s' a).1 (and the "
-               "leaf-level case of two rpms of one srpm) - histories are covered by correspondence on every rearranged order",
                "C08_perm_composeinfo": "bytes of successful dumps (which exception a failing dump raises can depend on the order: the first "
                "offending child wins)"}
 
@@ -744,6 +742,7 @@ class C08(Prop):
         order_texts = [None] * len(specs)
         base_content = None
         skipped = 0
+        hist_diff = None
         for hs in sorted(ans):
             for oi, r in enumerate(ans[hs]["runs"]):
                 if order_texts[oi] is None:
@@ -755,7 +754,12 @@ class C08(Prop):
                     if base_content is None:
                         base_content = r["content"]
                     elif r["content"] != base_content:
-                        skipped += 1                     # colliding add calls: this order builds another content
+                        # `permute` keeps the calls of every order-sensitive cell in their order (C08_perm_history_*): such a rearranged
+                        # history must build the same mapping with the same per-call outcomes
+                        skipped += 1
+                        if hist_diff is None:
+                            hist_diff = {"hashseed": hs, "order": a["orders"][oi], "rearranged history": specs[oi]["ops"],
+                                         "base [mapping sha : outcomes sha]": base_content, "this": r["content"]}
                         continue
                 if r.get("err"):
                     errs.add(r["err"])
@@ -769,8 +773,12 @@ class C08(Prop):
                     if str(di) in r.get("other", {}):
                         texts.setdefault(s, r["other"][str(di)])
                 states.append([hs, a["orders"][oi], r.get("before"), r.get("after")])
-        return {"first": first, "texts": texts, "table": table, "states": states, "errs": sorted(errs), "order_texts": order_texts,
-                "other_content": skipped, "issues": issues}
+        out = {"first": first, "texts": texts, "table": table, "states": states, "errs": sorted(errs), "order_texts": order_texts,
+               "other_content": skipped, "issues": issues}
+        if FMF is not None and fmt in ("rpms", "modules", "extra_files"):
+            out["hist"] = FMF.history(fmt, a["spec"])
+            out["hist_diff"] = hist_diff
+        return out
 
     # ---- model side
     @staticmethod
@@ -813,6 +821,8 @@ class C08(Prop):
             cur = ".".join(str(i) for i in productmd.common.VERSION)
             reqs.append({"op": "c08_ci_dumps_state", "args": {"spec": FCI.strip_parent(a["spec"]), "version": cur,
                                                                "ndumps": a.get("ndumps", 1)}})
+        if FMF is not None and fmt in ("rpms", "modules", "extra_files"):
+            reqs.append(FMF.model_history_request(fmt, a["spec"]))       # the model's cells and per-call outcomes of the base history
         return reqs
 
     def model_result(self, case, outs):
@@ -822,6 +832,10 @@ class C08(Prop):
             return dict((json.dumps([ph, mv]), (o["ok"]["text"] if "ok" in o else "ERR:" + str(o.get("err")))) for (ph, mv, _), o in zip(keys, outs))
         res = []
         state = None
+        hist = None
+        if FMF is not None and fmt in ("rpms", "modules", "extra_files"):
+            hist = FMF.model_history(outs[-1])
+            outs = outs[:-1]
         if fmt == "composeinfo":
             st = json.loads(outs[-1])
             outs = outs[:-1]
@@ -847,6 +861,8 @@ class C08(Prop):
                 res.append(FMF.model_text(fmt, o))
         if state is not None:
             return {"texts": res, "state": state}
+        if hist is not None:
+            return {"texts": res, "hist": hist}
         return res
 
     def compare(self, case, real_out, model_out):
@@ -863,7 +879,16 @@ class C08(Prop):
             return None
         state = None
         if isinstance(model_out, dict):
-            state, model_out = model_out["state"], model_out["texts"]
+            hist = model_out.get("hist")
+            state, model_out = model_out.get("state"), model_out["texts"]
+            if hist is not None and real_out.get("hist") is not None and hist != real_out["hist"]:
+                # the quantifier itself: which calls are order-sensitive w.r.t. each other (cells), which are refused
+                rh = real_out["hist"]
+                i = next((j for j in range(len(rh["cells"])) if j >= len(hist["cells"]) or rh["cells"][j] != hist["cells"][j]
+                          or rh["outcomes"][j] != hist["outcomes"][j]), 0)
+                return {"real": {"call": i, "cell": rh["cells"][i], "outcome": rh["outcomes"][i]},
+                        "model": {"call": i, "cell": hist["cells"][i] if i < len(hist["cells"]) else None,
+                                  "outcome": hist["outcomes"][i] if i < len(hist["outcomes"]) else None}}
         for m, r in zip(model_out, real_out["order_texts"]):
             if m != r:
                 return {"real": _excerpt(r, m), "model": _excerpt(m, r)}
@@ -903,6 +928,10 @@ class C08(Prop):
             return self.oracle_seq(case, real_out)
         a = case["args"]
         fmt = a["fmt"]
+        if real_out.get("hist_diff"):
+            return {"kind": "history-order", "observed": real_out["hist_diff"],
+                    "required": "a rearrangement of the add calls that keeps the calls of every order-sensitive cell (rpms slot, module entry, "
+                                "extra-file list) in their relative order builds the same mapping, with the same outcome for every call"}
         shas = set(row[-1] for row in real_out["table"])
         if len(shas) > 1:
             rows = {}
@@ -966,7 +995,7 @@ class C08(Prop):
         if a.get("interleave"):
             dist["style:all objects of the case built before the first dump"] = dist.get("style:all objects of the case built before the first dump", 0) + 1
         if real_out.get("other_content"):
-            dist[fmt + ":orders reaching another content (colliding adds, skipped)"] = dist.get(fmt + ":orders reaching another content (colliding adds, skipped)", 0) + real_out["other_content"]
+            dist[fmt + ":orders reaching another content (VIOLATION of C08_perm_history)"] = dist.get(fmt + ":orders reaching another content (VIOLATION of C08_perm_history)", 0) + real_out["other_content"]
         if real_out.get("errs"):
             dist[fmt + ":unwritable"] = dist.get(fmt + ":unwritable", 0) + 1
         for f in features(fmt, a["spec"]):
@@ -1110,7 +1139,10 @@ MANIFEST = dict(
     technique="proof (Lean 4) of permutation invariance of every writer over the executable model + differential correspondence + "
               "separate-process hash-seed oracle",
     text="C08: bytes are a function of content: theorems C08_perm_<format> (all rearrangements of all unordered containers), "
-         "C08_repeat_<format>, C08_layout_*, C08_order_kept_*; real library run in separate interpreters with 3/16 hash seeds",
+         "C08_repeat_<format>, C08_layout_*, C08_order_kept_*; rpms / modules / extra_files: C08_perm_manifests on the stored mapping and "
+         "C08_perm_history_rpms / _modules / _extra_files / _bytes on whole add HISTORIES of any length (any rearrangement that keeps the "
+         "calls of each order-sensitive cell - rpms slot, module entry, extra-file list - in their order; refused calls anywhere: JEq "
+         "mappings, same per-call outcomes, same bytes); real library run in separate interpreters with 3/16 hash seeds",
     note="equal-path images in one cell are outside the quantifier; their order follows set iteration (object identity) - probed and "
          "reported in the evidence distribution",
     ref="7/C08")
